@@ -73,6 +73,11 @@ impl MutOp {
 }
 
 pub type CustomFn = Arc<dyn Fn(u8, &Bytes) -> Vec<Bytes> + Send + Sync>;
+/// Delivery-side replacement: called for every packet from `Side` after it was captured and matched
+/// against the plan; `Some(bytes)` is delivered (and traced as Delivered) instead of the original.
+pub type RewriteFn = Arc<dyn Fn(Side, &Bytes) -> Option<Bytes> + Send + Sync>;
+/// Observer called with (sender side, bytes) right before each delivery.
+pub type ObserveFn = Arc<dyn Fn(Side, &Bytes) + Send + Sync>;
 
 #[derive(Clone, Debug, Serialize, Deserialize)]
 pub struct Rule<C> {
@@ -112,6 +117,10 @@ pub struct FaultLayer<C, I> {
     /// record Captured/Delivered events
     pub keep_trace: bool,
     pub custom: Option<CustomFn>,
+    /// optional delivery-side rewrite of every packet (None = off; see `RewriteFn`)
+    pub rewrite: Option<RewriteFn>,
+    /// optional observer of every delivery
+    pub on_deliver: Option<ObserveFn>,
 }
 
 impl<C: Copy + Eq + Hash, I> FaultLayer<C, I> {
@@ -126,6 +135,8 @@ impl<C: Copy + Eq + Hash, I> FaultLayer<C, I> {
             last_fault: None,
             keep_trace,
             custom: None,
+            rewrite: None,
+            on_deliver: None,
         }
     }
 
@@ -209,6 +220,17 @@ pub async fn pump<C, I>(
     C: Copy + Eq + Hash + Send + Sync + 'static,
     I: Send + Sync + 'static,
 {
+    // every delivery passes the optional observer first
+    let deliver: Deliver = {
+        let (l, d) = (layer.clone(), deliver);
+        Arc::new(move |b: Bytes| {
+            let obs = l.lock().on_deliver.clone();
+            if let Some(f) = obs {
+                f(from, &b);
+            }
+            d(b)
+        })
+    };
     let mut held: Vec<Held<C, I>> = Vec::new();
     let mut tick = tokio::time::interval(Duration::from_millis(4));
     tick.set_missed_tick_behavior(tokio::time::MissedTickBehavior::Skip);
@@ -219,6 +241,15 @@ pub async fn pump<C, I>(
                 let (class, info) = classify(&pkt);
                 let info = Arc::new(info);
                 let action = layer.lock().decide(from, class, pkt.len(), &info);
+                // optional delivery-side replacement (the capture above keeps the genuine packet)
+                let rw = layer.lock().rewrite.clone();
+                let (pkt, info) = match rw.and_then(|f| f(from, &pkt)) {
+                    Some(np) => {
+                        let (_c, i) = classify(&np);
+                        (np, Arc::new(i))
+                    }
+                    None => (pkt, info),
+                };
                 let prior = held.len();
                 match action {
                     None => {
